@@ -38,6 +38,8 @@ M_BYTES = {
     "half-line": [b'{"__kind__": "get_ta'],
     "long-line": [b'{"__kind__": "' + b"x" * 70000 + b'"}\n'],
     "states": [_line(dict(__kind__="get_task_states"))],
+    # a client that keeps asking and never reads an answer: the server's send path for this connection eventually blocks
+    "flood-noread": [_line(dict(__kind__="get_task_states")) * 400] * 40,
 }
 ENDINGS = ("close", "reset", "abandon")  # orderly FIN, RST, or leave the connection open
 
@@ -102,6 +104,15 @@ def run_sequence(pool, seq, ending, n):
     try:
         for label in seq:
             for chunk in M_BYTES[label]:
+                if label == "flood-noread":
+                    m.settimeout(0.5)
+                    try:
+                        m.sendall(chunk)
+                    except (socket.timeout, BlockingIOError):
+                        break  # the server stopped reading this connection (it is stuck sending to it): enough
+                    finally:
+                        m.settimeout(15)
+                    continue
                 m.sendall(chunk)
         time.sleep(0.02)
         if ending == "close":
